@@ -8,7 +8,10 @@ P: generated valid modules (nasty identifier pool), modules with injected semant
    asn1c ends by exit(); exit 0 => every emitted .c compiles (gcc -std=c99), the exact emitted file set links
    with a PDU-table stub, every emitted header passes g++ -std=gnu++14 -fsyntax-only, every descriptor
    satisfies WfDescr (Lean driver) and agrees with the source module on optional members;
-   exit != 0 => diagnostic on stderr."""
+   exit != 0 => diagnostic on stderr.
+   Repaired findings F80 (hyphenated C++ keywords), F43 (negative DEFAULT), F82 (empty range), F86 (enumeration item named like a
+   generated symbol) have no skip region:
+   their former witnesses and neighbours run as directed modules with an expected outcome (built / rejected)."""
 import os, re, json, shutil, collections, itertools
 from .. import build, core, genmod, bundle, cgen, trans_reswords, c10_compile
 
@@ -32,24 +35,12 @@ PROPOSED_FINDINGS = [
   "witness": {"module": "M DEFINITIONS AUTOMATIC TAGS ::= BEGIN T ::= SEQUENCE { a INTEGER, b BOOLEAN } END", "opts": [],
               "c_output": "undefined reference to `OCTET_STRING_decode_oer'"},
   "matcher": "link of exactly the emitted files fails and every undefined symbol is (OCTET|BIT)_STRING_(de|en)code_oer; OER support generated"},
- {"id": "F80", "property": "C10", "status": "known",
-  "what": "asn1c_make_identifier tests the reserved-word table before replacing '-' by '_': identifiers such as and-eq, not-eq, or-eq, "
-          "xor-eq, wchar-t, char16-t, const-cast, static-assert, thread-local become C++ keywords / alternative tokens: exit 0, C compiles, the emitted header is not C++-compatible",
-  "witness": {"module": "M DEFINITIONS AUTOMATIC TAGS ::= BEGIN T ::= SEQUENCE { and-eq INTEGER, wchar-t BOOLEAN } END", "opts": [],
-              "c_output": "error: expected unqualified-id before 'and_eq' token"},
-  "matcher": "module contains an identifier that is not in res_kwd but whose '-'->'_' image is (and-eq, wchar-t, ...); failure is g++ on the emitted header",
-  "lean_counterexample": "Asn1c.Props.C10.not_reserved_hyphen_cex"},
  {"id": "F81", "property": "C10", "status": "known",
   "what": "a type reference whose C name equals a skeleton typedef (INTEGER-t -> 'typedef struct INTEGER_t {...} INTEGER_t_t' next to the skeleton's 'typedef ... INTEGER_t') is accepted (exit 0); "
           "legal C (struct tags have their own name space) but the emitted header is rejected by g++ (using typedef-name after struct)",
   "witness": {"module": "M DEFINITIONS AUTOMATIC TAGS ::= BEGIN INTEGER-t ::= SEQUENCE { a INTEGER } END", "opts": [],
               "c_output": "INTEGER-t.h: error: using typedef-name 'INTEGER_t' after 'struct'"},
   "matcher": "module defines a type named <SkeletonType>-t (its C name equals an existing skeleton typedef); failure is g++ on the emitted header"},
- {"id": "F82", "property": "C10", "status": "known",
-  "what": "an empty value range (lower bound > upper bound, e.g. INTEGER (5..1)) makes asn1c abort on a failed assertion in asn1fix_crange.c (_range_overlap / _range_canonicalize) instead of a diagnostic",
-  "witness": {"module": "M DEFINITIONS AUTOMATIC TAGS ::= BEGIN T ::= INTEGER (5..1) END", "opts": [],
-              "c_output": "asn1fix_crange.c:458: _range_overlap: Assertion `_edge_compare(rb_l, rb_r) <= 0' failed"},
-  "matcher": "module contains a range lo..hi with lo > hi; asn1c dies in asn1fix_crange.c"},
  {"id": "F27", "property": "C10", "status": "known",
   "what": "an information-object-set row whose &Type is a built-in type ({ BOOLEAN IDENTIFIED BY 1 }) is accepted (exit 0) but the "
           "IOC table emitter writes '{ \"&Type\", ,' (no cell kind, no descriptor): emitted C does not compile",
@@ -71,12 +62,6 @@ PROPOSED_FINDINGS = [
   "witness": {"module": "M DEFINITIONS AUTOMATIC TAGS ::= BEGIN T ::= IA5String (1..5) END", "opts": [],
               "c_output": "#error m.asn1:2: Value of T cannot be determined"},
   "matcher": "compile error is the emitted '#error ... cannot be determined' line"},
- {"id": "F86", "property": "C10", "status": "known",
-  "what": "an ENUMERATED item / INTEGER named number called free, print or constraint in a named type T becomes the enum constant T_free / T_print / "
-          "T_constraint, the name of the generated function declared in the same header (asn_struct_free_f T_free; ...): exit 0, emitted C does not compile",
-  "witness": {"module": "M DEFINITIONS AUTOMATIC TAGS ::= BEGIN T ::= ENUMERATED { free, busy } END", "opts": ["-fcompound-names"],
-              "c_output": "T.h:32:19: error: 'T_free' redeclared as different kind of symbol"},
-  "matcher": "a named ENUMERATED / INTEGER-with-named-numbers type has an item called free, print or constraint and the compile error is '<T>_<item> redeclared as different kind of symbol'"},
  {"id": "F63", "property": "C10", "status": "known",
   "what": "a CHOICE that directly contains itself as an untagged alternative (T ::= CHOICE { a T, b INTEGER }) makes asn1c die with SIGSEGV (unbounded recursion in the tag fetcher), empty stderr",
   "witness": {"module": "M DEFINITIONS ::= BEGIN T ::= CHOICE { a T, b INTEGER } END", "opts": [],
@@ -157,7 +142,7 @@ HYPHEN_KW = {k.replace("_", "-") for k in C_KEYWORDS + CXX_KEYWORDS if "_" in k}
 def naming_predicate(ctx, lines, couts):
     """P on C's own outputs: identifiers made from ASN.1-shaped names are C identifiers and not keywords"""
     bad = []
-    f80 = 0
+    nh = 0
     n = 0
     asn1_name = re.compile(r"[A-Za-z][A-Za-z0-9]*(-[A-Za-z0-9]+)*\Z")
     for l, c in zip(lines, couts):
@@ -172,11 +157,11 @@ def naming_predicate(ctx, lines, couts):
             out = unhx(c[3:])
             if not IDENT_RE.match(out): bad.append((l, c, "not a C identifier"))
             elif int(t[1]) == 2 and out in C_KEYWORDS + CXX_KEYWORDS:
-                if name in HYPHEN_KW: f80 += 1
-                else: bad.append((l, c, "reserved word"))
+                bad.append((l, c, "reserved word"))       # hyphenated keywords (and-eq, wchar-t, ...: former finding F80) included
+            if name in HYPHEN_KW: nh += 1
             ctx.count_nontrivial(("mkid", name, out))
-    ctx.cov["predicate"]["identifier"] = {"asn1_shaped_names": n, "F80_hyphenated_keywords": f80, "failures": len(bad)}
-    return bad, f80
+    ctx.cov["predicate"]["identifier"] = {"asn1_shaped_names": n, "hyphenated_keywords_checked": nh, "failures": len(bad)}
+    return bad
 
 # ------------------------------------------------------------------ modules
 def inject_errors(rng, base_text, kind):
@@ -212,6 +197,10 @@ def inject_errors(rng, base_text, kind):
         "range-on-boolean": "Bad ::= BOOLEAN (1..5)",
         "range-on-string": "Bad ::= IA5String (1..5)",
         "min-max-swapped": "Bad ::= INTEGER (MAX..MIN)",
+        "empty-range-union": "Bad ::= INTEGER (1..5 | 9..7)",
+        "empty-range-parent-min": "Bad ::= INTEGER (1..10)(MIN..0)",
+        "empty-alphabet-range": "Bad ::= IA5String (FROM(\"z\"..\"a\"))",
+        "empty-size-member": "Bad ::= SEQUENCE { a [0] OCTET STRING (SIZE(9..8)) OPTIONAL }",
         "rec-seq": "Bad ::= SEQUENCE { a [0] INTEGER, b [1] Bad }",
         "rec-set": "Bad ::= SET { a [0] INTEGER, b [1] Bad }",
         "rec-choice-tagged": "Bad ::= CHOICE { a [0] Bad, b [1] INTEGER }",
@@ -324,6 +313,45 @@ def job(args):
     finally:
         shutil.rmtree(d, ignore_errors=True)
 
+# ------------------------------------------------------------------ directed modules (former witnesses of repaired findings and their neighbourhood)
+def directed_modules():
+    """[(tag, module text, expected outcome 'built' | 'rejected')], each run under every option set"""
+    hk = sorted(HYPHEN_KW)
+    seq = ", ".join(f"{k} [{i}] INTEGER" for i, k in enumerate(hk))
+    cho = ", ".join(f"{k} [{i}] NULL" for i, k in enumerate(hk))
+    enu = ", ".join(hk)
+    D = [
+     ("F80-witness", "M DEFINITIONS AUTOMATIC TAGS ::= BEGIN\n  T ::= SEQUENCE { and-eq INTEGER, wchar-t BOOLEAN }\nEND\n", "built"),
+     ("F80-all-hyphenated-keywords",
+      "M DEFINITIONS ::= BEGIN\n  S ::= SEQUENCE { %s }\n  C ::= CHOICE { %s }\n  E ::= ENUMERATED { %s }\n"
+      "  U ::= SET { and-eq [0] SEQUENCE { wchar-t INTEGER OPTIONAL }, thread-local [1] SEQUENCE OF INTEGER }\n"
+      "  Static-assert ::= INTEGER\n  Wchar-t ::= BOOLEAN\n  thread-local INTEGER ::= 5\nEND\n" % (seq, cho, enu), "built"),
+     ("F80-near-misses", "M DEFINITIONS AUTOMATIC TAGS ::= BEGIN\n  T ::= SEQUENCE { and-eq-x INTEGER, x-and-eq INTEGER, wchar-t1 BOOLEAN, and-EQ NULL, int-t INTEGER }\nEND\n", "built"),
+     ("F43-witness", "M DEFINITIONS AUTOMATIC TAGS ::= BEGIN\n  T ::= SEQUENCE { a INTEGER (MIN..-1) DEFAULT -1 }\nEND\n", "built"),
+     ("F43-negative-defaults",
+      "M DEFINITIONS AUTOMATIC TAGS ::= BEGIN\n  T ::= SEQUENCE { a INTEGER (MIN..-1) DEFAULT -1, b INTEGER DEFAULT -5, c INTEGER DEFAULT 5, d E DEFAULT neg,\n"
+      "    e INTEGER (-10..10) DEFAULT -10, f INTEGER DEFAULT -2147483648, g INTEGER { m(-7) } DEFAULT m, h INTEGER DEFAULT 0,\n"
+      "    i INTEGER (-5..5) DEFAULT 5, j INTEGER (-5..5) DEFAULT -5, k INTEGER DEFAULT -9223372036854775807 }\n"
+      "  U ::= SET { a [0] INTEGER DEFAULT -1, b [1] INTEGER DEFAULT 1, c [2] E DEFAULT neg }\n"
+      "  E ::= ENUMERATED { neg(-3), pos(3), zero(0) }\nEND\n", "built"),
+     ("F86-witness", "M DEFINITIONS AUTOMATIC TAGS ::= BEGIN\n  T ::= ENUMERATED { free, busy }\nEND\n", "built"),
+     ("F86-generated-symbol-names",
+      "M DEFINITIONS AUTOMATIC TAGS ::= BEGIN\n  T ::= ENUMERATED { free, busy, print, constraint, t, decode-ber, encode-der, decode-xer, encode-xer,\n"
+      "    decode-oer, encode-oer, decode-uper, encode-uper, pr, e, specs, def }\n"
+      "  U ::= SEQUENCE { e ENUMERATED { print, x, t }, i INTEGER { constraint(1), free(2) }, b BIT STRING { free(0), t(1) } }\n"
+      "  I ::= INTEGER { t(1), free(2), other(3) }\n  B ::= BIT STRING { free(0), t(1), print(2) }\n"
+      "  C ::= CHOICE { free NULL, t INTEGER, print BOOLEAN, nothing NULL, pr NULL }\nEND\n", "built"),
+     ("F82-witness", "M DEFINITIONS AUTOMATIC TAGS ::= BEGIN\n  T ::= INTEGER (5..1)\nEND\n", "rejected"),
+     ("F82-size", "M DEFINITIONS AUTOMATIC TAGS ::= BEGIN\n  T ::= OCTET STRING (SIZE(4..2))\nEND\n", "rejected"),
+     ("F82-member", "M DEFINITIONS AUTOMATIC TAGS ::= BEGIN\n  T ::= SEQUENCE { a INTEGER (10..-10), b BOOLEAN }\nEND\n", "rejected"),
+     ("F82-union", "M DEFINITIONS AUTOMATIC TAGS ::= BEGIN\n  T ::= INTEGER (1..5 | 9..7)\nEND\n", "rejected"),
+     ("F82-alphabet", "M DEFINITIONS AUTOMATIC TAGS ::= BEGIN\n  T ::= IA5String (FROM(\"z\"..\"a\"))\nEND\n", "rejected"),
+     ("F82-element", "M DEFINITIONS AUTOMATIC TAGS ::= BEGIN\n  T ::= SET (SIZE(3..1)) OF INTEGER\n  U ::= SEQUENCE OF INTEGER (7..3)\nEND\n", "rejected"),
+     ("F82-controls", "M DEFINITIONS AUTOMATIC TAGS ::= BEGIN\n  T ::= INTEGER (3..3)\n  U ::= IA5String (FROM(\"cba\"))\n  V ::= INTEGER (-5..-1 | 1..5)\n"
+                      "  W ::= OCTET STRING (SIZE(0..0))\n  X ::= IA5String (SIZE(1..4))(FROM(\"za\"))\nEND\n", "built"),
+    ]
+    return D
+
 # ------------------------------------------------------------------ known-finding regions (narrow)
 SKEL_TYPEDEFS = None
 def skel_typedef_names():
@@ -336,11 +364,6 @@ def skel_typedef_names():
         SKEL_TYPEDEFS = s
     return SKEL_TYPEDEFS
 
-def empty_range_in(text):
-    for a, b in re.findall(r"\((?:SIZE\()?\s*(-?\d+)\s*\.\.\s*(-?\d+)", text):
-        if int(a) > int(b): return True
-    return bool(re.search(r"MAX\s*\.\.\s*MIN", text))
-
 def classify(res):
     """list of (failure class, finding id or None, detail); empty when the run satisfies the property"""
     text = res["text"]
@@ -348,7 +371,6 @@ def classify(res):
     if res["died"]:
         d = res["death"] or ""
         if "asn1p_y" in d and re.search(r"(SET|SEQUENCE)\s*\(SIZE\([^)]*\)\)\s*OF\s+(SET|SEQUENCE)\s*\(SIZE", text): return [("died", "F33", d)]
-        if "asn1fix_crange.c" in d and empty_range_in(text): return [("died", "F82", d)]
         if "asn1f_find_terminal_thing" in d and re.search(r"\{[^{}]*\bNULL\b[^{}]*\}", text) and re.search(r"[A-Z][\w-]*\s*\{\s*[A-Z][\w-]*[^{}]*\}\s*::=", text): return [("died", "F88", d)]
         if res["rc"] in (-11, 139) or "SEGV" in d or "stack-overflow" in d:
             if re.search(r"([A-Z][\w-]*) ::= CHOICE \{\s*[\w-]+ \1\b", text): return [("died", "F63", d)]
@@ -357,13 +379,9 @@ def classify(res):
         if res["stderr_empty"]: return [("silent-nonzero-exit", None, f"rc={res['rc']}")]
         return []
     for f, msg in res.get("compile_errors") or []:
-        if re.search(r"asn_DFL_\d+_\w+_-\d", msg) or (re.search(r"DEFAULT\s+-\d", text) and re.search(r"before .-. token", msg)):
-            out.append(("compile", "F43", f + ": " + msg))     # negative DEFAULT (literal or through an ENUMERATED item with a negative value)
-        elif re.search(r"asn_DEF_Member_\d+. undeclared", msg) and re.search(r"OF\s+(\[[^\]]*\]\s*(IMPLICIT|EXPLICIT)?\s*)?INTEGER\s*\(", text): out.append(("compile", "F44", f + ": " + msg))
+        if re.search(r"asn_DEF_Member_\d+. undeclared", msg) and re.search(r"OF\s+(\[[^\]]*\]\s*(IMPLICIT|EXPLICIT)?\s*)?INTEGER\s*\(", text): out.append(("compile", "F44", f + ": " + msg))
         elif "-fno-constraints" in res["opts"] and re.search(r"asn_(OER|PER)_memb_\w+_constr_\d+. undeclared", msg): out.append(("compile", "F74", f + ": " + msg))
         elif "#error" in msg and "cannot be determined" in msg: out.append(("compile", "F85", f + ": " + msg))
-        elif re.search(r"_(free|print|constraint). redeclared as different kind of symbol", msg) and \
-             re.search(r"(ENUMERATED|INTEGER)\s*\{[^}]*\b(free|print|constraint)\b", text): out.append(("compile", "F86", f + ": " + msg))
         elif "expected expression before" in msg and re.search(r"\{\s*(BOOLEAN|INTEGER|NULL|REAL|OCTET STRING|BIT STRING|IA5String|UTF8String)\s+IDENTIFIED BY", text): out.append(("compile", "F27", f + ": " + msg))
         else: out.append(("compile", None, f + ": " + msg))
     if out: return out
@@ -375,9 +393,7 @@ def classify(res):
             out.append(("link-exact-set", "F12", und))
         else: out.append(("link-exact-set", None, und))
     for h, msg in res.get("cxx_errors") or []:
-        ids = set(re.findall(r"\b([a-z][\w-]*)\b", text))
-        if ids & HYPHEN_KW and re.search(r"(%s)" % "|".join(k.replace("-", "_") for k in ids & HYPHEN_KW), msg): out.append(("c++-header", "F80", h + ": " + msg))
-        elif "typedef-name" in msg and {n for n in type_names_of(text) if cgen.c_ident(n) in skel_typedef_names()}: out.append(("c++-header", "F81", h + ": " + msg))
+        if "typedef-name" in msg and {n for n in type_names_of(text) if cgen.c_ident(n) in skel_typedef_names()}: out.append(("c++-header", "F81", h + ": " + msg))
         else: out.append(("c++-header", None, h + ": " + msg))
     if res.get("dump_error"): out.append(("descriptor-dump", None, res["dump_error"]))
     return out
@@ -389,6 +405,7 @@ def run(ctx):
             ctx.findings.append(f)
             ctx.assumptions.append(f"finding {f['id']} is not in KNOWN_FINDINGS.json yet; using the proposed entry embedded in vlib/props/c10.py")
     fmap = {f["id"]: f for f in ctx.findings}
+    active = {f["id"] for f in ctx.findings if f.get("status") == "known"}
     tr = trans_reswords.translate()
     ctx.cov["translator"] = {"res_kwd": len(tr["words"]), "changed": tr["changed"]}
     asn1c = build.build_asn1c()
@@ -406,8 +423,7 @@ def run(ctx):
         ctx.log("K naming disagreement:", l, "C:", c, "model:", m)
     if dis:
         ctx.broken.append({"kind": "correspondence", "name": "naming", "first": {"op": dis[0][1], "c": dis[0][2], "model": dis[0][3]}, "count": len(dis)})
-    pbad, f80n = naming_predicate(ctx, lines, couts)
-    if f80n: ctx.known(fmap["F80"])
+    pbad = naming_predicate(ctx, lines, couts)
     for l, c, why in pbad[:3]:
         ctx.violation(f"identifier predicate fails on C: {why}: {l} -> {c}", {"op": l, "c_output": c, "failure": why})
 
@@ -455,6 +471,12 @@ def run(ctx):
         tag_mods.append(m)
         for on, opts in (OPTSETS[0], OPTSETS[1 + i % 3]):
             jobs.append((len(jobs), ("tagmod", i), genmod.module_text(m), [n for n, _ in m["types"]], on, opts, True))
+    # directed modules: former witnesses of the repaired findings F80 / F43 / F82 / F86 and their neighbourhood, every option set
+    directed = directed_modules()
+    dexpect = {tag: exp for tag, _, exp in directed}
+    for tag, text, exp in directed:
+        for on, opts in OPTSETS:
+            jobs.append((len(jobs), ("directed", tag), text, type_names_of(text), on, opts, True))
     # witnesses of the known findings of this property (replayed through the same pipeline)
     for f in ctx.findings:
         w = f.get("witness", {})
@@ -464,7 +486,7 @@ def run(ctx):
             if isinstance(opts, str): opts = opts.split()
             jobs.append((len(jobs), ("witness", f["id"]), text, w.get("types") or type_names_of(text), "witness", opts, False))
     ctx.log(f"running {len(jobs)} asn1c+gcc pipelines ({nvalid} valid modules x {len(OPTSETS)} option sets, {len(kinds) * reps} single-fault modules x 2, "
-            f"{nmulti} multi-module collision sets x 3)")
+            f"{nmulti} multi-module collision sets x 3, {len(directed)} directed modules x {len(OPTSETS)})")
     results = cgen.pmap(job, jobs)
     ctx.log("pipelines done")
 
@@ -524,6 +546,12 @@ def run(ctx):
             if any(c[1] == fid for c in cl): ctx.known(fmap[fid])
             else: ctx.log(f"note: finding {fid} does not reproduce on its witness through the C10 pipeline ({cl[:2]})")
             continue
+        # a finding whose status is no longer `known` (repaired) suppresses nothing: the failure counts as a violation
+        cl = [(cls, fid if fid in active else None, detail) for cls, fid, detail in cl]
+        if kind == "directed" and not r["died"]:
+            exp = dexpect[r["tag"][1]]
+            if exp == "built" and r["rc"] != 0: cl.append(("valid-module-rejected", None, f"rc={r['rc']} {r['err_head']}"))
+            if exp == "rejected" and r["rc"] == 0: cl.append(("empty-range-accepted", None, "exit 0"))
         unknown = [c for c in cl if c[1] is None]
         for cls, fid, detail in cl:
             if fid: ctx.known(fmap[fid]); stats["known:" + fid] += 1
